@@ -21,7 +21,7 @@ fn run_case(pool: usize, k: usize) -> Result<(), String> {
         sched.desync(&q, move || { let mut g = gate.0.lock().unwrap(); while !*g { g = gate.1.wait(g).unwrap(); } });
         other.push(q);
     }
-    thread::sleep(Duration::from_millis(50));
+    thread::sleep(desync_replay::ms(50));
 
     let queue = sched.create_job_queue();
     let hold = Arc::new((Mutex::new(false), Condvar::new()));
@@ -31,19 +31,19 @@ fn run_case(pool: usize, k: usize) -> Result<(), String> {
     let runner = { let (s, q, h, st) = (sched.clone(), queue.clone(), hold.clone(), started.clone()); thread::spawn(move || {
         s.sync(&q, move || { st.fetch_add(1, Ordering::SeqCst); let mut g = h.0.lock().unwrap(); while !*g { g = h.1.wait(g).unwrap(); } });
     }) };
-    while started.load(Ordering::SeqCst) == 0 { thread::sleep(Duration::from_millis(5)); }
+    while started.load(Ordering::SeqCst) == 0 { thread::sleep(desync_replay::ms(5)); }
     // k callers block behind it
     let mut waiters = vec![];
     for i in 0..k {
         let (s, q, d) = (sched.clone(), queue.clone(), done.clone());
-        waiters.push(thread::spawn(move || { let v = s.sync(&q, move || { thread::sleep(Duration::from_millis(20)); i }); assert_eq!(v, i); d.fetch_add(1, Ordering::SeqCst); }));
-        thread::sleep(Duration::from_millis(30));
+        waiters.push(thread::spawn(move || { let v = s.sync(&q, move || { thread::sleep(desync_replay::ms(20)); i }); assert_eq!(v, i); d.fetch_add(1, Ordering::SeqCst); }));
+        thread::sleep(desync_replay::ms(30));
     }
-    thread::sleep(Duration::from_millis(100));
+    thread::sleep(desync_replay::ms(100));
     { *hold.0.lock().unwrap() = true; hold.1.notify_all(); }
     runner.join().unwrap();
     let t0 = Instant::now();
-    while done.load(Ordering::SeqCst) < k && t0.elapsed() < Duration::from_secs(4) { thread::sleep(Duration::from_millis(10)); }
+    while done.load(Ordering::SeqCst) < k && t0.elapsed() < desync_replay::secs(4) { thread::sleep(desync_replay::ms(10)); }
     let got = done.load(Ordering::SeqCst);
     { *gate.0.lock().unwrap() = true; gate.1.notify_all(); }
     if got < k { return Err(format!("pool={} waiters={}: only {} of {} blocked sync callers returned; queue is {:?}", pool, k, got, k, queue)); }
